@@ -223,7 +223,7 @@ def run(ctx):
                     sorted(targets), len(sorter_ids), cmp_ok))
     # ... on every path (seed C06-7: mania files sent to the legacy sort alone, which is no total sort of an unordered list)
     if good and cmp_ok:
-        every = all(frm.cfg.must_pass_through(0, {bi_}) for bi_ in targets.values())
+        every = all(sfn.cfg.must_pass_through(0, {bi_}) for bi_ in targets.values())
         ctx.require(every, 'C06-R3', 'tandem-sort:every-path', 'every path through From<BeatmapState> to the Beatmap passes the stable time sort of hit_objects and hit_sounds', frm.where(),
                     bad='From<BeatmapState>: a path reaches the returned Beatmap without the stable time sort of hit_objects / hit_sounds (a mode-specific shortcut): '
                         'the mania legacy sort is a depth-limited quicksort that is only applied to an already time-ordered list — files whose [HitObjects] are '
